@@ -369,7 +369,7 @@ fn default_capacity_scenario() -> Report {
     const CAP1: usize = 262144;
     // address-free hashes of the variable nodes (inputs, found by search; the library's Hash impl
     // is only used to *choose* colliding inputs)
-    let mut fx = |v: usize| -> u64 {
+    let fx = |v: usize| -> u64 {
         let n = BddNode::new(VarLabel::new(v as u64), BddPtr::PtrFalse, BddPtr::PtrTrue);
         let mut h = rustc_hash_fx::FxHasher::default();
         n.hash(&mut h);
